@@ -450,6 +450,13 @@ def scen_disabled(ch, params, out):
     reg.add(replace_types=(IntString,), cls=FloatString)
     reg.add(cls=BooleanString)
     register_datetime_classes(reg)
+    twice = ch.choose("registered_twice", ["no", "datetime_classes", "all"])
+    if twice != "no":          # e.g. two CLI runs with --datetime in one process register the datetime classes on the same registry again
+        register_datetime_classes(reg)
+    if twice == "all":
+        reg.add(cls=IntString)
+        reg.add(replace_types=(IntString,), cls=FloatString)
+        reg.add(cls=BooleanString)
     if ch.flag("strings_were_classified_before_disabling"):
         from json_to_models.generator import MetadataGenerator as _MG
         warm = _MG(str_types_registry=reg)
@@ -461,7 +468,7 @@ def scen_disabled(ch, params, out):
     canonical = {"int": "IntString", "FloatString": "FloatString", "bool": "BooleanString", "date": "IsoDateString", "IsoTimeString": "IsoTimeString",
                  "datetime": "IsoDatetimeString"}
     gone = {canonical[d] for d in disabled}
-    out.info = {"disabled": used}
+    out.info = {"disabled": used, "registered_twice": twice}
     out.check(not ({t.__name__ for t in reg} & gone), "disabled_type_still_registered", lambda: f"{[t.__name__ for t in reg]} after removing {used}",
               "disabled_type_still_registered")
     out.check(not any(a.__name__ in gone or b.__name__ in gone for a, b in reg.replaces), "disabled_type_in_replace_relation",
@@ -572,7 +579,7 @@ META = {
     "functions_encoded": ["MetadataGenerator._detect_type (string branch)", "StringSerializableRegistry.add/remove/remove_by_name/resolve", "MetadataGenerator._optimize_union (pseudo-type clause)",
                           "IntString / FloatString / BooleanString parsers and renderers", "IsoDateString / IsoTimeString / IsoDatetimeString (through the grammar only)", "registry.replaces"],
     "symbolic_on_path": ["acceptance bit per stub type", "registration order / prefix", "replace relation bits", "argument subset", "string s (SMT and CrossHair string)", "grammar selectors", "disabled subset"],
-    "bounds": {"quick": "3 stub types (all orders and prefixes); 3 types x 6 relation bits x 7 subsets; ASCII strings of any length for the edges; grammar ~3.5k strings x datetime bit; 64 disabled subsets x 2 spellings x 3 frameworks; symbolic bool strings up to 5 ASCII chars (thorough: 5 arbitrary code points)",
+    "bounds": {"quick": "3 stub types (all orders and prefixes); 3 types x 6 relation bits x 7 subsets; ASCII strings of any length for the edges; grammar ~3.5k strings x datetime bit; 64 disabled subsets x 2 spellings x {registered once, datetime classes twice, all twice} x 3 frameworks; symbolic bool strings up to 5 ASCII chars (thorough: 5 arbitrary code points)",
                "thorough": "4 stub types; 4 types x 12 relation bits"},
     "outside_claim": ["classification of arbitrary strings by dateutil (only the grammar's strings)", "non-ASCII digits / whitespace in the inclusion proof", "int/float round trip beyond the grammar (delegated to CPython's int/str/float/repr)"],
     "assumptions": ["regex models of int()/float()/bool parsing (ASCII fragment) — validated each run against the real parsers on solver-generated strings",
